@@ -23,6 +23,9 @@
 (* and once per image, statically:                                            *)
 (*   RoutinesUnique no two routine bodies have the same name; a name's entry   *)
 (*                  address is the instruction after its marker                 *)
+(*   OperandsPresent  no loaded instruction lacks an operand the Machine      *)
+(*                  dereferences (`m` = number of such operands missing: POP   *)
+(*                  without a destination, MOVE without source, ...)           *)
 (*   RelocationPreservesTargets  every jump reaches the same instruction      *)
 (*                  object before and after routine bodies were moved          *)
 (* TraceVM.tla (second part): the (pc, frame shape) sequence of a real         *)
@@ -127,10 +130,15 @@ Markers == {k \in 0..N - 1 : At(k).op = "ROUTINE"}
 RoutinesUnique == /\ \A j, k \in Markers : At(j).a = At(k).a => j = k
                   /\ \A k \in Markers : At(k).a \in DOMAIN R.entries /\ R.entries[At(k).a] = k + 1
 
+\* every instruction has the operands the Machine will dereference (an accepted `repeat with x in ...` once compiled to a
+\* POP without a destination: the loop variable never received a value)
+OperandsPresent == \A k \in 0..N - 1 : At(k).m = 0
+
 \* ---- verdicts: one per image, collected in TLC registers (needs -workers 1) -----------------
 Flag(why) == IF TLCGet(rec) = "" THEN TLCSet(rec, why) ELSE TRUE
 Track == /\ (IF Fault # "" THEN Flag(Fault) ELSE TRUE)
          /\ (IF pc = 0 /\ fs = <<>> /\ ~RoutinesUnique THEN Flag("RoutinesUnique") ELSE TRUE)
+         /\ (IF pc = 0 /\ fs = <<>> /\ ~OperandsPresent THEN Flag("OperandsPresent") ELSE TRUE)
          /\ (IF pc = 0 /\ fs = <<>> /\ ~MapOk THEN Flag("LoadedCodeIsRearrangement") ELSE TRUE)
          /\ (IF pc = 0 /\ fs = <<>> /\ MapOk /\ ~Relocated THEN Flag("RelocationPreservesTargets") ELSE TRUE)
          /\ (IF pc = 0 /\ fs = <<>> /\ N <= 120 /\ ~SegExportOk THEN Flag("harness: segment export wrong") ELSE TRUE)
